@@ -88,7 +88,7 @@ func normDump(sql string) (string, error) {
 	if err != nil {
 		return "", err
 	}
-	return astdump.DumpOpt(t.Statements, astdump.Options{FoldCase: true}), nil
+	return astdump.DumpOpt(t.Statements, astdump.Options{FoldKeywords: true}), nil
 }
 
 func firstLine(err error) string {
@@ -186,7 +186,7 @@ func genCase(rt *rapid.T) RTCase {
 var strip = regexp.MustCompile(`"[^"]*"|'[^']*'|[0-9]+`)
 
 func TestRoundTrip(t *testing.T) {
-	hx.Rule("roundtrip", "G-SQL statements x {AST.SQL, AST.Format, gosqlx.Format, formatter.Format, CLI SQLFormatter} x drawn option sets; output must be accepted, re-parse to the same tree (strings case-folded) and be a fixed point of the same serialiser; non-trivial = statement needs a precedence parenthesis, has a quoted keyword identifier, a NOT form, a window frame or USING; distinct = serialiser + statement kind + feature set")
+	hx.Rule("roundtrip", "G-SQL statements x {AST.SQL, AST.Format, gosqlx.Format, formatter.Format, CLI SQLFormatter} x drawn option sets; output must be accepted, re-parse to the same tree (keyword/operator-word fields case-folded, names and literals exact) and be a fixed point of the same serialiser; non-trivial = statement needs a precedence parenthesis, has a quoted keyword identifier, a NOT form, a window frame or USING; distinct = serialiser + statement kind + feature set")
 	if hx.Surveying() {
 		rtCheck.Survey(t, 20000, genCase, func(c RTCase) int { return len(c.SQL) }, func(err error) string {
 			m := firstLine(err)
